@@ -134,5 +134,31 @@ for pi, peer in enumerate(peers):
         both = [x for x in got_add if x in got_del]
         if both:
             fail(inp, {'recommended both ways': both}, 'nothing', 'both')
+        # severity of each removal/change recommendation == worst rating the same report shows for that algorithm (JSON view carries the level)
+        if ver in ('10.0', '9.9', '7.4', '0.10.6', '2022.83', '20240101', '1.0') or pi == 0 and cases %% 7 == 0:
+            kex = H.make_kex(peer['kex'], peer['key'], peer['enc'], peer['mac'])
+            st2, js = H.run_output(kex=kex, banner=banner(prod, ver), json_out=True)
+            doc = json.loads(js)
+            rated = {}
+            for cat in ('kex', 'key', 'enc', 'mac'):
+                for e in doc[cat]:
+                    rated[(cat, e['algorithm'])] = e['notes']
+            for level, acts in doc.get('recommendations', {}).items():
+                for act, cats in acts.items():
+                    for cat, ents in cats.items():
+                        for ent in ents:
+                            n = ent['name']
+                            if act in ('del', 'chg'):
+                                notes = rated.get((cat, n))
+                                if notes is None:
+                                    notes = [v for (c2, n2), v in rated.items() if c2 == cat and norm(cat, n2) == n]
+                                    notes = notes[0] if notes else None
+                                if notes is None:
+                                    fail(inp, {'recommended': [level, act, cat, n]}, 'an advertised algorithm', 'level-unknown-alg'); continue
+                                want_level = 'critical' if notes.get('fail') else 'warning'
+                                if level != want_level:
+                                    fail(inp, {'recommendation': [level, act, cat, n], 'rated': sorted(notes)}, want_level, 'level')
+                            elif act == 'add' and level != 'informational':
+                                fail(inp, {'recommendation': [level, act, cat, n]}, 'informational', 'level-add')
 print(json.dumps({'cases': cases, 'failures': failures}))
 '''
